@@ -343,6 +343,10 @@ class Run(object):
             self.init_obs = ("fdke", e.key)
             self.rejections += 1
             return None
+        except Exception as e:  # noqa  -- the constructor may only raise FixedDictKeyError for what the harness gives it
+            self.fail(-1, "fixeddict-init-raises-other", "constructor raised %r (only FixedDictKeyError is expected)" % (e,))
+            self.init_obs = ("other", repr(e))
+            return None
         self.init_obs = ("ok", list(d.items()))
         if self.undeclared_in(d):
             self.broken_at = -1
